@@ -42,7 +42,7 @@ RULE = ("corpus, then random condition trees (depth<=3, 1-3 variables + dedicate
 
 
 def budget(tier: str) -> int:
-    return 1500 if tier == "quick" else 40000
+    return 8000 if tier == "quick" else 120000
 
 
 def generate(rng, tier, n):
